@@ -121,7 +121,18 @@ def macro_program(rng, many=False):
                     for _ in macros[m][0]:
                         a = rng.choice(["1", "x", "(2,3)", "f(4)", "a+(b*(c))", "q[1]"] + [o for o in order if macros[o][0] is None][:3])
                         args.append(a)
-                    parts.append("%s(%s)" % (m, ",".join(args)))
+                    call = "%s(%s)" % (m, ",".join(args))
+                    # the name inside a longer identifier that is itself followed by `(` is a different function
+                    deco = rng.random()
+                    if deco < 0.12:
+                        call = "x" + call
+                    elif deco < 0.24:
+                        call = "re_" + call
+                    elif deco < 0.32:
+                        call = "%sX(%s)" % (m, ",".join(args))
+                    elif deco < 0.38:
+                        call = "%s + 1" % m          # a function-like macro without arguments is not a use
+                    parts.append(call)
             elif k < 0.7:
                 parts.append(rng.choice(["foo1", "zz", "12", "y = 3;"]))
             else:
